@@ -145,6 +145,28 @@ impl PlFold for Flattener {
                             ..pipeline
                         });
                     }
+                    kind @ (TransformKind::Join { .. } | TransformKind::Append(_)) => {
+                        let input = self.fold_expr(*t.input)?;
+
+                        // The joined or appended pipeline is a relation of its own:
+                        // the sort, partition and frame in effect here do not
+                        // apply to its transforms, and its sort does not apply to
+                        // the transforms that follow here.
+                        let outer = Flattener {
+                            sort: std::mem::take(&mut self.sort),
+                            sort_undone: std::mem::take(&mut self.sort_undone),
+                            partition: self.partition.take(),
+                            window: std::mem::take(&mut self.window),
+                            replace_map: Default::default(),
+                        };
+                        let kind = fold_transform_kind(self, kind)?;
+                        self.sort = outer.sort;
+                        self.sort_undone = outer.sort_undone;
+                        self.partition = outer.partition;
+                        self.window = outer.window;
+
+                        (input, kind)
+                    }
                     kind => (self.fold_expr(*t.input)?, fold_transform_kind(self, kind)?),
                 };
 
